@@ -237,6 +237,56 @@ pub fn prods() -> Vec<Prod> {
         E::Macro("map", b(k.pop().unwrap()), "x".into(), vec![f, body])
     }));
     ps.push(p(LSTR, &[MSI], "map-keys", |mut k| E::Macro("map", b(k.pop().unwrap()), "x".into(), vec![E::Var("x".into())])));
+    // ill-matched operand types are errors, not coercions
+    for (a, c) in [(INT, UINT), (DBL, INT), (STR, INT), (LINT, INT), (UINT, DBL), (BOOL, INT), (NULL, INT)] {
+        ps.push(p(INT, &[a, c], "+mixed", bin("+")));
+        ps.push(p(INT, &[a, c], "*mixed", bin("*")));
+    }
+    // further collection / string forms
+    ps.push(p(INT, &[MIS], "size(mis)", |k| call("size", k)));
+    ps.push(p(INT, &[MSI], ".size(msi)", |mut k| mcall(k.pop().unwrap(), "size", vec![])));
+    ps.push(p(BOOL, &[LSTR, STR], "lstr.contains", |mut k| {
+        let a = k.pop().unwrap();
+        mcall(k.pop().unwrap(), "contains", vec![a])
+    }));
+    ps.push(p(BOOL, &[MIS, INT], "mis.contains", |mut k| {
+        let a = k.pop().unwrap();
+        mcall(k.pop().unwrap(), "contains", vec![a])
+    }));
+    ps.push(p(BOOL, &[MIS, UINT], "mis.contains-twin", |mut k| {
+        let a = k.pop().unwrap();
+        mcall(k.pop().unwrap(), "contains", vec![a])
+    }));
+    ps.push(p(STR, &[STR, STR], "max(s,s)", |k| call("max", k)));
+    ps.push(p(STR, &[LSTR], "min(lstr)", |k| call("min", k)));
+    ps.push(p(UINT, &[UINT, UINT], "min(u,u)", |k| call("min", k)));
+    ps.push(p(BOOL, &[MSI, BOOL], "msi.all", |mut k| {
+        let body = subst(&k.pop().unwrap(), "s", "x");
+        E::Macro("all", b(k.pop().unwrap()), "x".into(), vec![body])
+    }));
+    ps.push(p(BOOL, &[LSTR, BOOL], "lstr.exists_one", |mut k| {
+        let body = subst(&k.pop().unwrap(), "s", "x");
+        E::Macro("exists_one", b(k.pop().unwrap()), "x".into(), vec![body])
+    }));
+    ps.push(p(LSTR, &[LSTR, BOOL], "lstr.filter", |mut k| {
+        let body = subst(&k.pop().unwrap(), "s", "x");
+        E::Macro("filter", b(k.pop().unwrap()), "x".into(), vec![body])
+    }));
+    ps.push(p(LSTR, &[LSTR, STR], "lstr.map", |mut k| {
+        let body = subst(&k.pop().unwrap(), "s", "x");
+        E::Macro("map", b(k.pop().unwrap()), "x".into(), vec![body])
+    }));
+    ps.push(p(MSI, &[STR, INT, STR, INT], "{s:i,s:i}", |mut k| {
+        let v2 = k.pop().unwrap();
+        let k2 = k.pop().unwrap();
+        let v1 = k.pop().unwrap();
+        E::Map(vec![(k.pop().unwrap(), v1), (k2, v2)])
+    }));
+    ps.push(p(BOOL, &[BOOL, BOOL, BOOL], "?:bool-nested", |mut k| {
+        let e = k.pop().unwrap();
+        let th = k.pop().unwrap();
+        E::Bin("&&", b(E::Cond(b(k.pop().unwrap()), b(th), b(e.clone()))), b(e))
+    }));
     // literals built from parts
     ps.push(p(LINT, &[INT], "[x]", |k| E::List(k)));
     ps.push(p(LINT, &[INT, INT], "[x,y]", |k| E::List(k)));
